@@ -240,4 +240,6 @@ def obligations(tier):
     from harness import fp_kernels
 
     obs += fp_kernels.c08_obligations(tier)
+    # the round-trip clause depends on eraseRegion's shrink arithmetic
+    obs += [o for o in fp_kernels.c07_obligations("quick")]
     return obs
